@@ -394,7 +394,34 @@ def rule_common_node_order(ctx: Ctx, sites) -> None:
         lists = [get_kw(c, "nodelist") for c in arrs]
         c1, c2 = (norm(x) if x is not None else None for x in lists)
         # a nodelist that is None on some path (node sets differ: positional fallback) still counts when both calls receive the same name
-        if c1 is not None and c1 == c2 or (c1 is not None and c2 is not None and c1.startswith("sorted(") and c2.startswith("sorted(")):
+        # the common order may be given up (None: each graph in its own order) only when the two node sets differ — that is the positional reading
+        # for differently named graphs; any other way to None (an exception handler, a size test) compares equal labelled graphs as relabelled ones
+        lost = None
+        if c1 is not None and c1 == c2 and isinstance(lists[0], ast.Name):
+            for a in ast.walk(fn):
+                if isinstance(a, ast.Assign) and any(isinstance(t_, ast.Name) and t_.id == lists[0].id for t_ in a.targets) \
+                        and isinstance(a.value, ast.Constant) and a.value.value is None:
+                    g = parent(a)
+                    ok_ = False
+                    while g is not None and g is not fn:
+                        if isinstance(g, ast.If) and any(a is x for st in g.body for x in ast.walk(st)):
+                            tt = [x for x in ast.walk(g.test) if isinstance(x, ast.Compare) and len(x.ops) == 1 and isinstance(x.ops[0], ast.NotEq)
+                                  and norm(x.left).startswith("set(") and norm(x.comparators[0]).startswith("set(")]
+                            if tt and not (isinstance(g.test, ast.BoolOp) and isinstance(g.test.op, ast.Or)):
+                                ok_ = True
+                        if isinstance(g, ast.ExceptHandler):
+                            ok_ = False
+                            break
+                        g = parent(g)
+                    if not ok_:
+                        lost = a
+        if lost is not None:
+            g = parent(lost)
+            where = "an exception handler" if isinstance(g, ast.ExceptHandler) else f"`{short(g.test, 50)}`" if isinstance(g, ast.If) else "a path"
+            ctx.fail("node.common-order", m, lost,
+                     f"{q} gives up the common node order (`{short(lost)}`) under {where}, not because the node sets differ: on that path two equal labelled graphs "
+                     f"built in different insertion orders are compared as differently labelled graphs", func=q, construct=f"{q}: common node order dropped")
+        elif c1 is not None and c1 == c2 or (c1 is not None and c2 is not None and c1.startswith("sorted(") and c2.startswith("sorted(")):
             ctx.ok("node.common-order", m, arrs[0], what=f"{q}: both adjacency matrices in one common node order")
         else:
             ctx.fail("node.common-order", m, arrs[1],
